@@ -108,6 +108,7 @@ def execute(mod, wl, i, traced, k, fault, tbl, rate=None, seed_first=None):
     try:
         f = eval(wl, {})
         with contextlib.redirect_stdout(out):
+            res = ("nothing", "the block neither returned nor raised: the tracing context swallowed the program's exception")
             try:
                 if traced:
                     with cm:
